@@ -1034,11 +1034,28 @@ def _generate_structure_virtual_field_methods(enclosing_type_name, field_ir, ir)
             ir,
             field_reader=_VirtualViewFieldRenderer(),
         ).rendered
+        value_in_range_check = ""
+        if field_ir.read_transform.type.which_type == "integer":
+            # Values outside of the inferred range of the field can never be
+            # written (the destination could not hold their inverse image), and
+            # the transform is only known to be overflow-free inside that range.
+            minimum = int(field_ir.read_transform.type.integer.minimum_value)
+            maximum = int(field_ir.read_transform.type.integer.maximum_value)
+            out_of_range = ["emboss_reserved_local_value > " + _render_integer(maximum)]
+            if minimum != 0 or "uint" not in logical_type:
+                # (Compilers warn about `unsigned_value < 0`.)
+                out_of_range.insert(
+                    0, "emboss_reserved_local_value < " + _render_integer(minimum)
+                )
+            value_in_range_check = "      if ({}) return false;".format(
+                " ||\n          ".join(out_of_range)
+            )
         write_methods = code_template.format_template(
             _TEMPLATES.structure_single_virtual_field_write_methods,
             logical_type=logical_type,
             destination=destination,
             transform=transform,
+            value_in_range_check=value_in_range_check,
         )
     else:
         write_methods = ""
